@@ -39,10 +39,13 @@ decasteljau(const std::vector<LieGroup>& trajectory,
     "Degree must be less or equal to the number of input points!");
   MANIF_CHECK(k_interp > 0,
     "k_interp must be greater than zero!");
+  MANIF_CHECK(degree > 1,
+    "Degree must be greater than one!");
 
-  // Number of connected, non-overlapping segments
+  // Number of connected segments of 'degree' control points,
+  // consecutive segments share one control point.
   const unsigned int n_segments = static_cast<unsigned int>(
-      std::floor(double(trajectory.size()-degree)/double((degree-1)+1))
+      (trajectory.size()-1) / (degree-1)
   );
 
   std::vector<std::vector<const LieGroup*>> segments_control_points;
